@@ -26,11 +26,11 @@ CHECKS = {
    note="Trusted: torn-write model = prefix / zero-fill / stale tail of the in-flight file, other files intact; the free-running writer probe in the child is a sample, the deterministic continuation is the forked simulated run; a recovered index is reopened with the segment format it was written with.",
    technique="deterministic simulation + torn-write crash enumeration with fork-from-image continuation (depth >= 2), prefix-consistency oracle"),
  "C08": dict(level="exploration", ref="3/C08",
-   text="Metamorphic simulation property: the layout is the product of a schedule. The index a seeded simulated run ends with (any segmentation, pending deletions, merged or not, in memory or on disk, ice v1/v2, also through Backup+OpenReader and reopened after Close) must answer 10-19 generated queries of every public query type exactly like canonical builds of the same documents (one batch, permuted, one document per batch with and without merging, other segment format, optimisations off, OfflineWriter, partitioned + MultiSearch): match sets, stored fields, order under a total field sort, aggregations; scores between builds without merged segments or pending deletions (up to floating-point summation order). No reference semantics is needed. Sampling of schedules, corpora and queries.",
+   text="Metamorphic simulation property: the layout is the product of a schedule. The index a seeded simulated run ends with (any segmentation, pending deletions, merged or not, in memory or on disk, ice v1/v2, also through Backup+OpenReader and reopened after Close) must answer 10-19 generated queries of every public query type exactly like canonical builds of the same documents (one batch, permuted, one document per batch with and without merging, other segment format, optimisations off, OfflineWriter, partitioned + MultiSearch): match sets, stored fields, order under a total field sort, aggregations, and the match set again with scoring turned off (score mode none); scores between builds without merged segments or pending deletions (up to floating-point summation order). No reference semantics is needed. Sampling of schedules, corpora and queries.",
    note="Trusted: the abstract index supplies the live documents; scores are compared with a relative tolerance of 1e-12 (summation order depends on document numbering); score differences of the merged build are the listed known finding and only that.",
    technique="deterministic simulation producing layouts + differential (metamorphic) comparison of search answers across build recipes"),
  "C19": dict(level="exploration", ref="3/C19",
-   text="Two seeded searches. In situ: in merge-heavy simulated runs the exported planner is run (twice, and on the reversed input) on exactly the persisted segments of the snapshot the real merger is planning on, its result is checked for well-formedness (tasks within the input, disjoint, below the maximum segment size, no member at or above half of it, deterministic) and the merges the merger then executes are compared with those tasks. Sizes only: seeded arrival/deletion/plan-execution histories round the real planner over size stubs with randomised options, same invariants at every step, termination of every planner call (wall-clock guard), fixpoint within 200 rounds once arrivals stop and the CalcBudget bound there. Sampling of histories and options, not proof.",
+   text="Two seeded searches. In situ: in merge-heavy simulated runs the exported planner is run (twice, and on the reversed input) on exactly the persisted segments of the snapshot the real merger is planning on, its result is checked for well-formedness (tasks within the input, disjoint, below the maximum segment size, no member at or above half of it, deterministic) and the merges the merger then executes are compared with those tasks. Sizes only: seeded arrival/deletion/plan-execution histories round the real planner over size stubs with randomised options, same invariants at every step, termination of every planner call (wall-clock guard), fixpoint within 200 rounds once arrivals stop and an independently computed logarithmic staircase bound there (integral and fractional growth factors). Sampling of histories and options, not proof.",
    note="Trusted: the sizes-only half has no scheduler or fault in it (the property's quantifier asks for histories on sizes only); that the real writer is idle with planner work pending until the next batch is legal (the merger is woken only by a completed persist) and is only counted.",
    technique="deterministic simulation with in-situ plan monitors at the planner seam + seeded sizes-only discrete-event histories round the real planner"),
  "C11": dict(level="exploration", ref="3/C11",
